@@ -207,6 +207,7 @@ def facts : Facts := {
   depthZeroTests := 2
   allocAfterSizeCheck := true
   allocSitesSized := 6
+  pointeeAfterLengthCheck := true
   typedAllocOK := true
   typedAllocSites := 6
   decoderSkeleton := "17ca3b1513b97227a6799a0a"
